@@ -20,6 +20,7 @@ func init() {
 			ruleBuildGuards(c)
 			ruleDescMarshalers(c)
 			ruleDescRecursion(c)
+			rulePresenceStore(c)
 		},
 	})
 }
